@@ -961,13 +961,57 @@ def const_interface(prog):
                             if r is not None and r.is_const():
                                 v = r.lo
                     args.setdefault("%s#%d" % (nm, j), set()).add(int(v) if v is not None else "~")
+        # results handed on: `return g(..)`, `ret = g(..); .. return ret`
+        fwd = set()
+        retvars = set()
+        for b, i, e in f.elements():
+            if e.get("k") == "ret" and e.get("e") is not None:
+                x = strip(e["e"], all_casts=True)
+                if x.get("k") == "ref" and "id" in x["d"]:
+                    retvars.add(x["d"]["id"])
+                for m in ([x] if x.get("k") != "cond" else [strip(x["a"], all_casts=True), strip(x["b"], all_casts=True)]):
+                    if m.get("k") == "call":
+                        for g in prog.resolve_call(f, m):
+                            if g.static and g.file == f.file:      # a block moved into a file-local helper
+                                fwd.add(g.file + ":" + g.qn)
+                    if m.get("k") == "ref" and "id" in m["d"]:
+                        retvars.add(m["d"]["id"])
+        if retvars:
+            for b, i, n in f.walk_all():
+                if n.get("k") == "bin" and n.get("op") == "=":
+                    l = strip(n["a"], lvalue_to_rvalue=False)
+                    r = strip(n["b"], all_casts=True)
+                    if l.get("k") == "ref" and l["d"].get("id") in retvars and r.get("k") == "call":
+                        for g in prog.resolve_call(f, r):
+                            if g.static and g.file == f.file:
+                                fwd.add(g.file + ":" + g.qn)
         ent = {}
         if rets:
             ent["ret"] = sorted(rets)
+            ent["own"] = sorted(rets)
         if args:
             ent["args"] = {k: sorted(v, key=str) for k, v in args.items()}
+        if fwd:
+            ent["fwd"] = sorted(fwd)
         if ent:
             out[f.file + ":" + f.qn] = ent
+    # what a function hands on from its callees it returns itself
+    changed = True
+    rounds = 0
+    while changed and rounds < 10:
+        changed = False
+        rounds += 1
+        for k, ent in out.items():
+            cur = set(ent.get("ret", []))
+            for g in ent.get("fwd", []):
+                add = set(out.get(g, {}).get("ret", [])) - cur
+                if add:
+                    cur |= add
+                    changed = True
+            if cur != set(ent.get("ret", [])):
+                ent["ret"] = sorted(cur)
+    for ent in out.values():
+        ent.pop("fwd", None)
     return out
 
 
@@ -997,10 +1041,11 @@ def run_constiface(prog, ctx=None):
                 matched += 1
             continue
         matched += 1
-        r0, r1 = set(ent.get("ret", [])), set(cur.get("ret", []))
+        r0, r1 = set(ent.get("own", [])), set(cur.get("ret", []))
         for c in sorted(r0):
             if c >= 0 and not (c > 0 and len([x for x in r0 if x > 0]) <= 2):
                 continue
+            # the constant may be handed on from a file-local helper the block was moved into
             ok = c in r1
             if not ok:
                 # a computed return may still deliver the value: `ret = CODE; goto out; .. return ret` - the constant is
@@ -1033,7 +1078,10 @@ def run_constiface(prog, ctx=None):
                     res.ob("%s:%s" % (k.split(":", 1)[1], key), False, f, f.line,
                            "%s passed a computed value as argument %s of %s in the reference tree and passes the constant %s now" % (f.qn, key.split("#")[1], key.split("#")[0], cv))
                 continue
-            ok = set(map(str, cv)) == set(map(str, vals))
+            # calls that moved into a helper leave a subset, new call sites a superset: a *changed* constant shows as one value
+            # gone and another one new
+            a, bset = set(map(str, cv)), set(map(str, vals))
+            ok = not ((a - bset) and (bset - a))
             res.ob("%s:%s" % (k.split(":", 1)[1], key), ok, f, f.line,
                    "" if ok else "%s passed %s as argument %s of %s in the reference tree and passes %s now" % (
                        f.qn, vals, key.split("#")[1], key.split("#")[0], cv))
